@@ -5,9 +5,12 @@
 //! `callee.call(|port| Msg::Call(id, port), None)` future by hand (noop waker), announcing each
 //! poll with the harness point `call.poll`. Inside the first poll the real send parks at
 //! `send.status`, `admit.load`, `admit.cas`, `send.box`, `send.enqueue`, `ticket.release`. The
-//! callee actor lives on a `current_thread` runtime owned by the controller (this thread), so it
-//! runs only inside the controller's `rx …` ops; its handler handles ONE message per `rx handle`
-//! (it then waits for the controller before returning to its loop).
+//! callee actor lives on a `current_thread` runtime on its OWN registered OS thread, which executes
+//! "run until nothing is runnable" commands of the controller; its handler handles ONE message per
+//! `rx handle` (it then waits for the controller before returning to its loop). The exit sequence
+//! parks at the real points `status.publish`, `status.unreg_*`, `status.pg_*`, `cleanup.*`,
+//! `status.notify`, `notify.*`: `rx kill|stop` runs it to the end in one go, `xkill|xstop` only to its
+//! first point, after which `step e` advances it point by point, interleaved with caller steps.
 //!
 //! ops.txt / impl.txt:
 //!   `case <n> <k>`        | `ok at=call.poll,…`                      k caller threads, ids 0..k
@@ -16,6 +19,9 @@
 //!                                                                     message: replies 100+id / drops the port
 //!   `rx kill` / `rx stop` | `handled=- st=<0|2>`                      the callee exits (task ended,
 //!                                                                     mailbox receiver dropped)
+//!   `xkill` / `xstop`     | `at=<point>`                              kill()/stop(), the callee runs to the
+//!                                                                     first point of its exit sequence
+//!   `step e`              | `at=<point|callee.idle> st=<0|1|2>`       the callee runs to its next point
 //!   `end`                 | `c<i>=<res|pending>… handled=<id:val|id:drop,…|-> gone=<0|1> polls=<n,…>`
 //!                           polls = polls granted to caller i after the callee's task had ended
 //!   res = `senderr` | `success:<v>` | `sendererror`
@@ -93,8 +99,16 @@ struct CallerT {
     abort: Arc<std::sync::atomic::AtomicBool>,
 }
 
+enum Cmd {
+    Run,
+    Quit,
+}
+
 struct World {
-    rt: tokio::runtime::Runtime,
+    /// the callee's thread: control block, command queue, join handle
+    ectl: Arc<ThreadCtl>,
+    cmds: Arc<Mutex<std::collections::VecDeque<Cmd>>>,
+    ehandle: Option<std::thread::JoinHandle<()>>,
     callee: ActorRef<Msg>,
     shared: Arc<Mutex<Shared>>,
     sem: Arc<tokio::sync::Semaphore>,
@@ -105,12 +119,40 @@ struct World {
 
 impl World {
     fn new(k: usize) -> (World, String) {
-        let rt = tokio::runtime::Builder::new_current_thread().build().unwrap();
         let shared = Arc::new(Mutex::new(Shared::default()));
         let sem = Arc::new(tokio::sync::Semaphore::new(0));
-        let (callee, _h) = rt.block_on(Actor::spawn(None, Callee, (shared.clone(), sem.clone()))).expect("spawn callee");
-        let mut w = World { rt, callee, shared, sem, callers: vec![], seen_log: 0, gone: false };
-        w.run_callee();
+        let ectl = ThreadCtl::new();
+        let cmds: Arc<Mutex<std::collections::VecDeque<Cmd>>> = Default::default();
+        let (tx, rx) = std::sync::mpsc::channel();
+        let (sh2, sem2, ectl2, cmds2) = (shared.clone(), sem.clone(), ectl.clone(), cmds.clone());
+        let ehandle = std::thread::spawn(move || {
+            let rt = tokio::runtime::Builder::new_current_thread().build().unwrap();
+            let idle = || async {
+                for _ in 0..64 {
+                    tokio::task::yield_now().await;
+                }
+            };
+            // start-up runs unregistered: its `set_status` points are no-ops
+            let (callee, _h) = rt.block_on(Actor::spawn(None, Callee, (sh2, sem2))).expect("spawn callee");
+            rt.block_on(idle());
+            tx.send(callee).unwrap();
+            verif::thread_register(ectl2.clone());
+            loop {
+                verif::point("callee.idle");
+                let c = cmds2.lock().unwrap().pop_front();
+                match c {
+                    Some(Cmd::Run) => rt.block_on(idle()),
+                    Some(Cmd::Quit) => break,
+                    None => {}
+                }
+            }
+            verif::thread_unregister();
+            drop(rt);
+            ectl2.finish();
+        });
+        let callee: ActorRef<Msg> = rx.recv().expect("callee thread");
+        ectl.wait_parked();
+        let mut w = World { ectl, cmds, ehandle: Some(ehandle), callee, shared, sem, callers: vec![], seen_log: 0, gone: false };
         let mut at = Vec::new();
         for id in 0..k as u64 {
             let ctl = ThreadCtl::new();
@@ -152,13 +194,42 @@ impl World {
         (w, format!("ok at={}", at.join(",")))
     }
 
-    /// let the callee's runtime run until nothing is runnable
-    fn run_callee(&mut self) {
-        self.rt.block_on(async {
-            for _ in 0..64 {
-                tokio::task::yield_now().await;
+    fn callee_at(&self) -> String {
+        match self.ectl.phase() {
+            ThreadPhase::AtPoint(p) => p.to_string(),
+            _ => "done".into(),
+        }
+    }
+
+    /// one granted step of the callee's thread; returns the point it parks at next
+    fn step_callee(&mut self) -> String {
+        self.ectl.grant();
+        self.ectl.wait_parked();
+        let at = self.callee_at();
+        if at == "callee.idle" && self.st() == 2 {
+            self.gone = true;
+        }
+        at
+    }
+
+    /// let the callee's runtime run until nothing is runnable — or until the actor parks at the
+    /// first point of its exit sequence
+    fn run_callee(&mut self) -> String {
+        if self.callee_at() != "callee.idle" {
+            return self.callee_at();
+        }
+        self.cmds.lock().unwrap().push_back(Cmd::Run);
+        self.step_callee()
+    }
+
+    /// finish an exit sequence that is under way
+    fn run_callee_to_idle(&mut self) {
+        for _ in 0..200 {
+            if self.callee_at() == "callee.idle" {
+                break;
             }
-        });
+            self.step_callee();
+        }
     }
 
     fn st(&self) -> u8 {
@@ -185,7 +256,7 @@ impl World {
     fn exec(&mut self, op: &str, st: &mut Stats) -> String {
         let w: Vec<&str> = op.split_whitespace().collect();
         match w.as_slice() {
-            ["step", c] => {
+            ["step", c] if *c != "e" => {
                 let Some(i) = c.strip_prefix('c').and_then(|x| x.parse::<usize>().ok()) else { return "bad-op".into() };
                 let Some(ct) = self.callers.get_mut(i) else { return "bad-op".into() };
                 if ct.ctl.phase() == ThreadPhase::Done {
@@ -210,7 +281,35 @@ impl World {
                     }
                 }
             }
+            ["step", "e"] => {
+                let at = if self.callee_at() == "callee.idle" { "callee.idle".to_string() } else { self.step_callee() };
+                st.bump(&format!("e_at_{at}"));
+                format!("at={at} st={}", self.st())
+            }
+            [how @ ("xkill" | "xstop")] => {
+                st.bump(how);
+                if self.callee_at() != "callee.idle" {
+                    return "busy".into();
+                }
+                if *how == "xkill" {
+                    self.callee.kill();
+                } else {
+                    self.callee.stop(None);
+                }
+                {
+                    let mut sh = self.shared.lock().unwrap();
+                    sh.reply = false;
+                    if sh.blocked {
+                        sh.blocked = false;
+                        self.sem.add_permits(1);
+                    }
+                }
+                format!("at={}", self.run_callee())
+            }
             ["rx", "handle", m] => {
+                if self.callee_at() != "callee.idle" {
+                    return "busy".into();
+                }
                 st.bump("rx_handle");
                 {
                     let mut sh = self.shared.lock().unwrap();
@@ -224,6 +323,9 @@ impl World {
                 format!("handled={} st={}", self.new_handled(), self.st())
             }
             ["rx", how @ ("kill" | "stop")] => {
+                if self.callee_at() != "callee.idle" {
+                    return "busy".into();
+                }
                 st.bump(&format!("rx_{how}"));
                 if *how == "kill" {
                     self.callee.kill();
@@ -239,9 +341,7 @@ impl World {
                     }
                 }
                 self.run_callee();
-                if self.st() == 2 {
-                    self.gone = true;
-                }
+                self.run_callee_to_idle();
                 format!("handled={} st={}", self.new_handled(), self.st())
             }
             ["end"] => {
@@ -287,7 +387,15 @@ impl World {
                 self.sem.add_permits(1);
             }
         }
-        self.run_callee();
+        {
+            let mut q = self.cmds.lock().unwrap();
+            q.push_back(Cmd::Run);
+            q.push_back(Cmd::Quit);
+        }
+        self.ectl.release();
+        if let Some(h) = self.ehandle.take() {
+            let _ = h.join();
+        }
         for c in self.callers.iter_mut() {
             if let Some(h) = c.handle.take() {
                 let _ = h.join();
@@ -344,16 +452,62 @@ fn enumerate() -> Vec<Vec<String>> {
     out
 }
 
+/// one caller against an exit driven point by point: `xkill|xstop` after p caller steps, then j
+/// steps of the exit sequence, then the caller to its end, then the rest of the exit, then polls
+fn enumerate_micro() -> Vec<Vec<String>> {
+    let mut out = Vec::new();
+    let mut n = 50_000;
+    for how in ["xkill", "xstop"] {
+        for p in 0..=8usize {
+            for j in 0..=15usize {
+                let mut ops = vec![format!("case {n} 1")];
+                n += 1;
+                for _ in 0..p {
+                    ops.push("step c0".into());
+                }
+                ops.push(how.to_string());
+                for _ in 0..j {
+                    ops.push("step e".into());
+                }
+                for _ in 0..(9 - p) {
+                    ops.push("step c0".into());
+                }
+                for _ in 0..(16 - j) {
+                    ops.push("step e".into());
+                }
+                for _ in 0..3 {
+                    ops.push("step c0".into());
+                }
+                ops.push("end".into());
+                out.push(ops);
+            }
+        }
+    }
+    out
+}
+
 fn gen_case(rng: &mut Rng, n: u64) -> Vec<String> {
     let k = rng.range(1, 3);
     let mut ops = vec![format!("case {n} {k}")];
     let len = rng.range(6, 14 * k);
     let exit_at = if rng.chance(3, 4) { Some(rng.below(len)) } else { None };
     let mut exited = false;
+    // half of the exits are driven point by point, interleaved with the callers' steps
+    let mut esteps = 0u64;
     for s in 0..len {
         if exit_at == Some(s) {
-            ops.push(format!("rx {}", if rng.chance(1, 2) { "kill" } else { "stop" }));
+            if rng.chance(1, 2) {
+                ops.push(if rng.chance(1, 2) { "xkill" } else { "xstop" }.to_string());
+                esteps = 16;
+            } else {
+                ops.push(format!("rx {}", if rng.chance(1, 2) { "kill" } else { "stop" }));
+            }
             exited = true;
+        }
+        if esteps > 0 && rng.chance(3, 5) {
+            ops.push("step e".into());
+            esteps -= 1;
+            continue;
         }
         let r = rng.below(10);
         if r < 2 && !exited {
@@ -361,6 +515,9 @@ fn gen_case(rng: &mut Rng, n: u64) -> Vec<String> {
         } else {
             ops.push(format!("step c{}", rng.below(k)));
         }
+    }
+    for _ in 0..esteps {
+        ops.push("step e".into());
     }
     // every caller gets enough steps to finish its send and poll twice more
     for i in 0..k {
@@ -413,6 +570,10 @@ fn main() {
             for ops in enumerate() {
                 run_case(&ops, &mut log, &mut st);
                 st.bump("enumerated_schedules");
+            }
+            for ops in enumerate_micro() {
+                run_case(&ops, &mut log, &mut st);
+                st.bump("enumerated_micro_exit_schedules");
             }
         }
         for n in 0..cases {
